@@ -125,14 +125,14 @@ pub fn step(ctx: &Ctx, w: &World, ev: &mut Ev) {
         let own_on = mul_div(op, pos.size.unsigned_abs(), d).unwrap_or(0);
         ev.count(if own_on == en { "oracle_notional_reference_equals_engine_figure" } else { "oracle_notional_reference_differs_from_engine_figure" });
     }
-    // "the oracle" is the feed: its latest price is the last accepted submission of the history
-    let own_price = ctx.model.feed.get(v).and_then(|f| f.last()).map(|x| x.1);
+    // "the oracle" is the feed: its latest price is asked of the feed itself; the vAMM's `UnderlyingPrice` answer is only
+    // compared with it (a vAMM that passes something else on - a TWAP, a stale figure - makes the engine decide on a
+    // price that is not the oracle's). Without an answer of the feed (no submission yet) the vAMM's answer stands.
+    let own_price = pq_u(ctx.preq, "feed_latest");
     if let (Some(a), Some(b)) = (own_price, pq_u(ctx.preq, "underlying")) {
-        ev.count(if a == b { "oracle_price_reference_equals_vamm_answer" } else { "oracle_price_reference_differs_from_vamm_answer" });
+        ev.count(if a == b { "oracle_price_feed_equals_vamm_answer" } else { "oracle_price_feed_differs_from_vamm_answer" });
     }
-    // (the harness's record is only counted against the vAMM's answer, not used: the two feeds differ in what they keep
-    // of equal-timestamp and batch submissions, and the record does not model that faithfully enough to be a reference)
-    let lr = match ratio_liq_own_price(ctx.preq, pos.margin, f, ctx.pre.vamms[v].spot, d, twap_ref, Some((pos.dir, pos.size.unsigned_abs(), pos.notional)), None) {
+    let lr = match ratio_liq_own_price(ctx.preq, pos.margin, f, ctx.pre.vamms[v].spot, d, twap_ref, Some((pos.dir, pos.size.unsigned_abs(), pos.notional)), own_price) {
         Some(x) => x,
         None => {
             ev.count("ratio_unavailable");
